@@ -7,7 +7,8 @@
  *         decr                   asn_decode of the remembered buffer from the first unconsumed octet to its end
  *         reset                  ASN_STRUCT_RESET, then the structure is compared with zeros
  *         free                   ASN_STRUCT_FREE, sptr = NULL
- *         enc:<syn>              asn_encode_to_new_buffer, buffer released
+ *         enc:<syn>              asn_encode_to_new_buffer, buffer released (asn_encode with a null callback when the
+ *                                structure was left by a decode that did not return RC_OK); encb:<syn> always buffers
  *         print | check          asn_fprint to /dev/null | asn_check_constraints
  *       A decode step is executed only when the API allows it (structure NULL / just reset, or `decr`
  *       after RC_WMORE of a restartable syntax); otherwise it is reported as `skip`.
@@ -161,13 +162,15 @@ static int is_zero(const void *p, size_t n) {
     return 1;
 }
 
+static int c14_null_cb(const void *b, size_t n, void *k) { (void)b; (void)n; (void)k; return 0; }
+
 static int op_hist(int argc, char **argv, FILE *out) {
     if(argc != 3) { fputs("bad-op", out); return 1; }
     int trees = strchr(argv[1], 't') != 0;
     long failk = strtol(argv[1], 0, 10);
     static FILE *devnull;
     if(!devnull) devnull = fopen("/dev/null", "w");
-    void *sptr = 0; int state = ST_CLEAN;
+    void *sptr = 0; int state = ST_CLEAN; int partial = 0;
     uint8_t *rem = 0; size_t rem_len = 0, rem_off = 0; char rem_syn[8] = "";
     int zeroed = 1;
     lg_reset(); lg_set_trace(trees); c14_unknown = 0;
@@ -214,6 +217,7 @@ static int op_hist(int argc, char **argv, FILE *out) {
                 rem_off += rv.consumed <= len ? rv.consumed : len;
                 state = (rv.code == RC_WMORE && restartable(syn)) ? ST_MORE : ST_DONE;
                 if(!sptr) state = ST_CLEAN;
+                partial = sptr && rv.code != RC_OK;
             }
             free(tmp);
         } else if(!strcmp(name, "reset")) {
@@ -223,15 +227,22 @@ static int op_hist(int argc, char **argv, FILE *out) {
                 int z = is_zero(sptr, c14_struct_size(cur_td));
                 if(!z) zeroed = 0;
                 fprintf(out, "z%d 0", z);
-                state = ST_CLEAN;
+                state = ST_CLEAN; partial = 0;
             }
         } else if(!strcmp(name, "free")) {
             lg_enabled = 1; ASN_STRUCT_FREE(*cur_td, sptr); lg_enabled = 0;
-            sptr = 0; state = ST_CLEAN;
+            sptr = 0; state = ST_CLEAN; partial = 0;
             fputs("done 0", out);
-        } else if(!strcmp(name, "enc") && nf >= 2) {
+        } else if((!strcmp(name, "enc") || !strcmp(name, "encb")) && nf >= 2) {
             if(!sptr) fputs("skip 0", out);
-            else {
+            else if(partial && !strcmp(name, "enc")) {
+                /* structure left by a decode that did not complete: encode without the dynamic buffer
+                 * (the region of finding F140, dynamic_encoder_cb memcpy(.., NULL, 0), is entered only by `encb`) */
+                lg_enabled = 1;
+                asn_enc_rval_t er = asn_encode(0, gen_syntax(f[1], 0), cur_td, sptr, c14_null_cb, 0);
+                lg_enabled = 0;
+                if(er.encoded >= 0) fprintf(out, "ok %zd", er.encoded); else fputs("fail 0", out);
+            } else {
                 lg_enabled = 1;
                 asn_encode_to_new_buffer_result_t r = asn_encode_to_new_buffer(0, gen_syntax(f[1], 0), cur_td, sptr);
                 ssize_t n = r.result.encoded;
